@@ -256,16 +256,18 @@ func (r *defRunner[C]) record(col *collector, c C, st Stats, err error) (fatal s
 			v = &Violation{Key: "other", Msg: err.Error()}
 		}
 		if _, isKnown := col.known[v.Key]; isKnown {
-			col.p.ExcludedKnown[v.Key]++
+			// a listed known finding: counted, excluded from the verdict, and the
+			// case is otherwise accounted for like any other (the search goes on)
 			if !col.failed {
-				col.p.Evaluations++
-				if col.inEnum {
-					col.p.EnumEvals++
-				} else {
-					col.p.RapidEvals++
-				}
+				col.p.ExcludedKnown[v.Key]++
 			}
-			return ""
+			err = nil
+		}
+	}
+	if err != nil {
+		v, ok := err.(*Violation)
+		if !ok {
+			v = &Violation{Key: "other", Msg: err.Error()}
 		}
 		if col.failed && v.Key != col.firstKey {
 			// shrinking must stay on the finding it started with
